@@ -42,6 +42,8 @@ def main():
         meta["applies"] = rc == 0
         if rc != 0:
             meta["apply_error"] = out[-500:]
+            for k in ("tests_with_patch", "demo_with_patch", "checks"):
+                meta.pop(k, None)          # nothing measured on this tree
         else:
             meta.pop("apply_error", None)
             rc, out = sh("%s -m pytest -q -p no:cacheprovider -x 2>&1 | tail -3" % PY, cwd=wt, env={"PYTHONPATH": wt})
